@@ -148,13 +148,22 @@ func c18() *core.Check {
 		// literals of 28-40 content bytes with a multi-byte character across the
 		// 31-byte value clip; closed literals followed by more literal-like syntax
 		us = append(us, gen.RangeUnits("clipu", uint64(len(litForms)), 1, "")...)
+		// bodies over {delimiter, x, blank, LF, CR LF}: adjacent literals on the next
+		// line are separate tokens here, not one continued literal
+		for fi := range litForms {
+			us = append(us, gen.RangeUnits("bodyws", gen.Pow(5, 6), 16000, strconv.Itoa(fi))...)
+		}
+		// literals glued to the token before them (number, hex, closing bracket,
+		// operator, another literal, comment) without white space
+		us = append(us, gen.RangeUnits("glue", uint64(len(c18Glue)*341), 6000, "")...)
+		us = append(us, gen.RangeUnits("dglue", uint64(len(c18Glue)*3*341), 6000, "")...)
 		// bodies that start with a BOM or other multi-byte / high / NUL prefix
 		us = append(us, gen.RangeUnits("bodypre", uint64(len(litForms)*len(c18Prefixes)), 64, "")...)
 		return us
 	}
 	return &core.Check{
 		ID: "C18",
-		Rule: "for every literal form (real ' \" `, virtual quote in the four quoted modes, n' N' e' E' u&' U&', @' @\" @` @@' @@`) bodies over {delimiter, backslash, x, other quote} exhaustively up to length 7 (thorough 11) and periodic bodies U.V.U.V for all U,V up to length 3 (5), behind nine SQL prefixes (incl. backslashes before the opener); q-quotes for all 223 delimiter bytes >= 33 x bodies over {b, close(b), ', x} up to 5 (7), q/Q/nq/Nq; dollar quotes with tags of length 0-3 x bodies over {$, tag letter, x, y} up to 6 (9); the same literals embedded in random SQL; bodies of length 6 over {delimiter, backslash, x, 0xA9, U+00E9} and of length 5 over {delimiter, backslash, x, U+0100+d, U+0600+d, U+2000+d} for every form; bodies behind a BOM / high-byte / NUL prefix; backslash runs of 29-36, 61-66, 127-130, 255-258, 1023-1025 and 4097 in front of a delimiter for every form; q-quotes whose delimiter byte is the lead byte of a multi-byte UTF-8 character with bodies over {lead byte, continuation bytes, ', x, whole character}; dollar tags with the tag in another letter case inside the body, and tags of 2-256 letters with cut-off / extended closers; virtual-quote literals additionally on a state that has been through the earlier readings of the cascade. " +
+		Rule: "for every literal form (real ' \" `, virtual quote in the four quoted modes, n' N' e' E' u&' U&', @' @\" @` @@' @@`) bodies over {delimiter, backslash, x, other quote} exhaustively up to length 7 (thorough 11) and periodic bodies U.V.U.V for all U,V up to length 3 (5), behind nine SQL prefixes (incl. backslashes before the opener); q-quotes for all 223 delimiter bytes >= 33 x bodies over {b, close(b), ', x} up to 5 (7), q/Q/nq/Nq; dollar quotes with tags of length 0-3 x bodies over {$, tag letter, x, y} up to 6 (9); the same literals embedded in random SQL; bodies of length 6 over {delimiter, backslash, x, 0xA9, U+00E9} and of length 5 over {delimiter, backslash, x, U+0100+d, U+0600+d, U+2000+d} for every form; bodies behind a BOM / high-byte / NUL prefix; backslash runs of 29-36, 61-66, 127-130, 255-258, 1023-1025 and 4097 in front of a delimiter for every form; q-quotes whose delimiter byte is the lead byte of a multi-byte UTF-8 character with bodies over {lead byte, continuation bytes, ', x, whole character}; dollar tags with the tag in another letter case inside the body, and tags of 2-256 letters with cut-off / extended closers; bodies of length 6 over {delimiter, x, blank, LF, CR LF} for every form (adjacent literals on the next line); real-quote, variable and dollar literals of body length 0-4 glued without white space to 24 preceding tokens (numbers, hex, closing brackets, operators, comments, other literals); virtual-quote literals additionally on a state that has been through the earlier readings of the cascade. " +
 			"The string token (content start, content end taken from the scan offset after the token, closed?, open/close marks, resume offset) is compared with the first-terminator oracle. Non-trivial = bodies holding a delimiter or backslash; distinct by input+form.",
 		Plan: plan,
 		Gen: func(w *core.Worker, u core.Unit, emit func(core.Case)) {
@@ -232,6 +241,44 @@ func c18() *core.Check {
 					}
 					op := "$" + tag + "$"
 					emit(core.Case{In: pre + op + body, Kind: "dollar", A: int64(len(pre) + len(op)), S: op})
+				}
+			case "bodyws":
+				fi, _ := strconv.Atoi(u.Arg)
+				f := litForms[fi]
+				al := []string{string([]byte{f.delim}), "x", " ", "\n", "\r\n"}
+				var buf []byte
+				for i := u.Lo; i < u.Hi; i++ {
+					buf = gen.Enum(al, 6, i, buf)
+					emitLit(fi, string(buf), int(i), emit)
+				}
+			case "glue":
+				var buf []byte
+				for i := u.Lo; i < u.Hi; i++ {
+					pre := c18Glue[i/341]
+					buf = enumUpTo4(alpha4('\''), i%341, buf)
+					for fi, f := range litForms {
+						if f.opener == "" || !strings.ContainsAny(f.opener[:1], "'\"`@") {
+							continue
+						}
+						if strings.ContainsAny(pre, "'\"`") {
+							continue // a quote right before the opener would pair up with it
+						}
+						body := strings.ReplaceAll(strings.ReplaceAll(strings.ReplaceAll(string(buf), "\"", "\x01"), "'", string([]byte{f.delim})), "\x01", otherQuote(f.delim))
+						emit(core.Case{In: pre + f.opener + body, Kind: "quoted", A: int64(len(pre) + len(f.opener)), C: int64(fi)})
+					}
+				}
+			case "dglue":
+				var buf []byte
+				for i := u.Lo; i < u.Hi; i++ {
+					pre := c18Glue[(i/341)%uint64(len(c18Glue))]
+					tag := []string{"", "t", "ab"}[i/341/uint64(len(c18Glue))]
+					letter := "t"
+					if len(tag) > 0 {
+						letter = tag[:1]
+					}
+					buf = enumUpTo4([]string{"$", letter, "x", "b"}, i%341, buf)
+					op := "$" + tag + "$"
+					emit(core.Case{In: pre + op + string(buf), Kind: "dollar", A: int64(len(pre) + len(op)), S: op})
 				}
 			case "body5":
 				fi, _ := strconv.Atoi(u.Arg)
@@ -379,6 +426,19 @@ func c18() *core.Check {
 			return fmt.Sprintf("kind=%s content starts at %d, mode %s\n%s", c.Kind, c.A, modeName(mode), dumpSQLTrace(&tr))
 		},
 	}
+}
+
+// tokens that end on their own, so that a literal opener glued to them starts a new token
+var c18Glue = []string{"1", "0x1F", "1.5", "1e5", ".5", "1)", "1=", "1+", "1,", "(", ";", "}", "0b1", "1\n", "1\r\n", "1\t", "/**/", "'b'", "\"b\"", "`b`", "1.", "0X1f", "1e+5", "1 or 1"}
+
+// enumUpTo4: the i-th word of length 0..4 over a four-letter alphabet (341 words).
+func enumUpTo4(al []string, i uint64, buf []byte) []byte {
+	l := 0
+	for n := uint64(1); i >= n; n *= 4 {
+		i -= n
+		l++
+	}
+	return gen.Enum(al, l, i, buf)
 }
 
 var c18BsRuns = []int{29, 30, 31, 32, 33, 34, 35, 36, 61, 62, 63, 64, 65, 66, 127, 128, 129, 130, 255, 256, 257, 258, 1023, 1024, 1025, 4097}
